@@ -30,6 +30,8 @@ const BASES: &[(&str, &str)] = &[
     ("ünï", "non-ascii"),
     ("pct%41", "percent"),
     ("trail", "trailing-slash"),
+    ("ha#sh", "hash"),
+    ("qu?ery", "question"),
 ];
 
 impl Check for C14 {
